@@ -159,3 +159,21 @@ CHECKS["C10"] = dict(
               "entry:ctxwritev", "entry:writerwrite", "kind:qblock", "kind:qnonblock", "size:>=65535", "size:~1024"],
     assumptions=_E1_ASSUME,
 )
+
+CHECKS["C06"] = dict(
+    test="TestC06", level="exploration",
+    quick=dict(shards=16, checks=160, timeout=400),
+    thorough=dict(shards=16, checks=40000, timeout=3400, shrinktime="120s"),
+    rule="cooperative-scheduler cases on queued channels (queue 1,2,3,4,6; wait-for-writes and bounded-wait mode): 1-3 writer tasks x 1-4 "
+         "calls over the five entry points, then one Close (own closer task enabled only when every writer task has ended, or issued by "
+         "the single writer itself) with error nil/sentinel/wrapped; generated schedule plus directed prefixes that park the sender at "
+         "send.top/beforeWritev/afterWritev/beforeFlush/t.flush/beforeRelease/afterRelease and the closer at close.won/close.wait/"
+         "close.beforeTransportClose; 0-2 futile Close polls (real 100 ms sleeps) allowed per case, so the closer never exhausts the "
+         "bounded grace period. Oracle: every payload whose call returned success before Close was invoked is in the transport stream "
+         "and was flushed before the transport's Close event; no Close event inside a sender Writev. Non-trivial = Close began while a "
+         "sender task existed and had not ended. Distinct by case hash.",
+    required=["close-overlaps-sender", "untilwrite:true", "untilwrite:false", "closer-stepped-while-sender-at:send.afterRelease",
+              "closer-stepped-while-sender-at:send.beforeRelease", "closer-stepped-while-sender-at:send.beforeFlush",
+              "closer-stepped-while-sender-at:send.afterWritev", "queue:1", "queue:2", "queue:>2"],
+    assumptions=_E1_ASSUME + ["Close's 100 ms poll sleep is real time (add-only hooks cannot remove it); cases that overlap Close with a running sender are budgeted by count"],
+)
